@@ -34,6 +34,7 @@ CONSTANTS MaxDepth,     \* stack depth bound
           SharedTable,  \* deviation switch
           MaxLives,     \* configurations the same files are seen under (1: no Reconfigure)
           AppFlagMemoised,  \* deviation switch
+          SharedTimeBudget, \* deviation switch
           ClsKinds      \* what `self` is in a frame: "none" (a plain function), "C" (an ordinary instance),
                         \*   "E" (an instance that is falsy: an empty container-like object),
                         \*   "H" (an instance whose truth value cannot be taken: __bool__ raises)
@@ -78,8 +79,9 @@ AddTp(t) == phase = "build" /\ Len(tps) < MaxActions /\ tps' = Append(tps, t)
             /\ UNCHANGED <<stack, expire, snaps, evCached, next, phase, life, flipped>>
 SetExpire(e) == phase = "build" /\ expire = MaxDepth /\ e < MaxDepth /\ expire' = e
                 /\ UNCHANGED <<stack, tps, snaps, evCached, next, phase, life, flipped>>
-(* the time budget is per trigger (shared by the tracepoints of the event): expiry is modelled for one tracepoint only *)
-Hit == phase = "build" /\ stack # <<>> /\ tps # <<>> /\ (Len(tps) > 1 => expire = MaxDepth) /\ phase' = "run"
+(* the time budget belongs to each tracepoint: every tracepoint of the event gets as far down the stack as one alone *)
+(* (deviation SharedTimeBudget: the budget runs from the trace event, so a later tracepoint of the line finds it spent) *)
+Hit == phase = "build" /\ stack # <<>> /\ tps # <<>> /\ phase' = "run"
        /\ UNCHANGED <<stack, tps, expire, snaps, evCached, next, life, flipped>>
 
 (* frame_type -> which frame indexes (0 = top) carry variables *)
@@ -94,6 +96,7 @@ LocalNames(idx) == 1..stack[idx + 1].nl
 FrameOf(a, idx, cached) ==
     LET f == stack[idx + 1]
         collect == ShouldCollect(tps[a].ft, idx) /\ idx < expire
+                     /\ ~(SharedTimeBudget /\ a > 1 /\ expire < MaxDepth)
         \* deviation: a locals mapping already in the per-event cache yields a reference to a deleted entry
         lost == SharedTable /\ idx \in cached
     IN [idx |-> idx, cls |-> f.cls,
